@@ -402,7 +402,10 @@ def b_islice(eng, st, a, kw):
         if len(a) > 3 and not (isinstance(a[3], NoneV) or (isinstance(a[3], IntV) and a[3].concrete() == 1)):
             raise Unsupported("islice with a step")
     ln = z3.If(hi > lo, hi - lo, z3.IntVal(0))
-    return SeqV(ln, lambda i: seq.at(lo + i), "gen")
+    lo_s = z3.simplify(lo)
+    at_ = (lambda i: seq.at(i)) if z3.is_int_value(lo_s) and lo_s.as_long() == 0 else (lambda i: seq.at(lo + i))
+    meta = {"window_of": seq, "lo": lo, "hi": hi} if seq.meta.get("ginv") is not None else None
+    return SeqV(ln, at_, "gen", meta)
 
 
 def b_chain(eng, st, a, kw):
@@ -590,6 +593,8 @@ def b_sorted(eng, st, a, kw):
     key = kw.get("key")
     if "reverse" in kw or (key is not None and not (isinstance(key, ObjV) and key.cls == "itemgetter")):
         raise Unsupported("sorted with reverse / a key other than operator.itemgetter")
+    if eng.concrete:
+        return _concrete_sorted(eng, st, a[0], key)
     if key is not None:
         return stable_sort_by_item(eng, st, a[0], key.fields["k"])
     src = a[0]
@@ -622,6 +627,56 @@ def b_sorted(eng, st, a, kw):
     st.assume(z3.ForAll([i, j], z3.Implies(z3.And(i >= 0, i < j, j < n), out(i) <= out(j)), patterns=[z3.MultiPattern(out(i), out(j))]))
     eng.sort_registry.append((sg, tau, n))  # seed sigma / tau at the skolem constants of later goals
     return ListV(n, lambda k: IntV(out(k)))
+
+
+def _concrete_sorted(eng, st, src, key):
+    """concrete mode (differential check): the elements are known values, sort them"""
+    if isinstance(src, SetV):
+        els = getattr(src, "elements", None)
+        if els is None:
+            raise Unsupported("concrete mode: sorted(set without explicit elements)")
+    else:
+        seq = eng.as_seq(src, st)
+        n_c = z3.simplify(seq.n)
+        if not z3.is_int_value(n_c):
+            raise Unsupported("concrete mode: sorted of a sequence of symbolic length")
+        els = [seq.at(z3.IntVal(j)) for j in range(n_c.as_long())]
+
+    def conc(v):
+        if isinstance(v, TupV):
+            return tuple(conc(x) for x in v.items)
+        c_ = IntV(Z(v)).concrete()
+        if c_ is None:
+            raise Unsupported("concrete mode: sorted of symbolic values")
+        return c_
+
+    vals = [conc(e) for e in els]
+    if isinstance(src, SetV):
+        vals = sorted(set(vals))
+    elif key is not None:
+        k_ = key.fields["k"]
+        k_ = k_.concrete() if isinstance(k_, IntV) else k_
+        vals = sorted(vals, key=lambda t: t[k_])
+    else:
+        vals = sorted(vals)
+
+    def back(v):
+        return TupV([back(x) for x in v]) if isinstance(v, tuple) else IntV(v)
+
+    items = [back(v) for v in vals]
+    return ListV(len(items), lambda i, items=items: _pick_concrete(i, items))
+
+
+def _pick_concrete(i, items):
+    s_ = z3.simplify(Z(i))
+    if z3.is_int_value(s_) and 0 <= s_.as_long() < len(items):
+        return items[s_.as_long()]
+    if not items:
+        return IntV(0)
+    out = items[-1]
+    for k_ in range(len(items) - 2, -1, -1):
+        out = vite(Z(i) == k_, items[k_], out)
+    return out
 
 
 def stable_sort_by_item(eng, st, src, k):
